@@ -49,24 +49,29 @@ def run(rep, tier, seed):
         for i in range(nsh):
             items.append((g, lambda r, g_, t_, s_, i=i, nsh=nsh: check_primitives(r, g_, t_, s_, only="log", shard=(i, nsh))))
         if g in DERIVED_QUICK or (tier != "quick" and g in DERIVED_THOROUGH):
-            items.append((g, check_derived))
+            for fn in ("rplus", "lplus", "rminus", "lminus", "between"):
+                nsh = 4 if g in ("SE3", "SE_2_3", "SGal3") else 1
+                for i in range(nsh):
+                    items.append((g, lambda r, g_, t_, s_, fn=fn, i=i, nsh=nsh: check_derived(r, g_, t_, s_, only=fn, shard=(i, nsh))))
     rep.parallel(items, lambda r, it: it[1](r, it[0], tier, seed))
     rep.not_run.append("chain-rule Jacobians of rplus/lplus/rminus/lminus/between by direct differentiation for SE_2_3, SGal3 (SE3: thorough tier) "
                        "(two symbolic elements through log: too slow); the generic layer is the same code for every group (C04 rule) and is "
                        "differentiated here for SO2, SE2, SO3, Rn (quick) and SE3 (thorough); rplus/rminus additionally through dual numbers (C12)")
 
 
-DERIVED_QUICK = ["SO2", "SE2", "SO3", "R3"]
-DERIVED_THOROUGH = ["SE3"]
+DERIVED_QUICK = ["SO2", "SE2", "SO3", "R3", "SE3"]
+DERIVED_THOROUGH = ["SE_2_3"]
 
 
-def check_derived(rep, g, tier, seed):
+def check_derived(rep, g, tier, seed, only=None, shard=(0, 1)):
     """LieGroupBase::rplus / lplus / rminus / lminus / between: the returned Jacobians are the true derivatives"""
     for fn in ("rplus", "lplus", "rminus", "lminus", "between"):
         C.check_anchor(rep, "LieGroupBase::%s" % fn, "include/manif/impl/lie_group_base.h")
-    HARNESS.prefetch(g, ["rplus", "lplus", "rminus_rel", "lminus_rel", "between"])
-    for scn in ("rplus", "lplus"):
-        for c in _paths(rep, g, scn, [("x", "G"), ("t", "T")], seed, scn):
+    sel = lambda scn: only in (None, scn)
+    take = lambda paths: [c for k, c in enumerate(paths) if k % shard[1] == shard[0]]
+    HARNESS.prefetch(g, [{"rminus": "rminus_rel", "lminus": "lminus_rel"}.get(x, x) for x in ("rplus", "lplus", "rminus", "lminus", "between") if sel(x)])
+    for scn in [x for x in ("rplus", "lplus") if sel(x)]:
+        for c in take(_paths(rep, g, scn, [("x", "G"), ("t", "T")], seed, scn)):
             rep.progress("%s %s[%s]" % (g, scn, c.path.script))
             taylor.with_taylor(c, TAU, lambda c=c: (c.deriv_group("J_m", c.vec("out"), c.out("Ja"), "x"),
                                                      c.deriv_group("J_t", c.vec("out"), c.out("Jb"), "t")))
@@ -75,13 +80,13 @@ def check_derived(rep, g, tier, seed):
     # small-angle branch - is an input variable (Taylor bounds then apply).  With g(B, Z) = f(A(B, Z), B) and compose()'s
     # Jacobians Jcz = dA/dZ, Jcy = dA/dB (invertible; proved under C05/<g>/compose):
     #     D_Z g = Ja * Jcz         D_B g = Ja * Jcy + Jb       <=>   Ja = df/dA,  Jb = df/dB
-    for scn in ("rminus", "lminus"):
-        for c in _paths(rep, g, scn + "_rel", [("y", "G"), ("z", "G")], seed, scn):
+    for scn in [x for x in ("rminus", "lminus") if sel(x)]:
+        for c in take(_paths(rep, g, scn + "_rel", [("y", "G"), ("z", "G")], seed, scn)):
             rep.progress("%s %s[%s]" % (g, scn, c.path.script))
             Ja, Jb, Jcy, Jcz = c.out("Ja"), c.out("Jb"), c.out("Jcy"), c.out("Jcz")
             taylor.with_taylor(c, TAU, lambda c=c: (c.deriv_vec("J_a", c.vec("out"), np.dot(Ja, Jcz), "z"),
                                                      c.deriv_vec("J_b", c.vec("out"), np.dot(Ja, Jcy) + Jb, "y")))
-    for c in _paths(rep, g, "between", [("x", "G"), ("y", "G")], seed, "between"):
+    for c in (take(_paths(rep, g, "between", [("x", "G"), ("y", "G")], seed, "between")) if sel("between") else []):
         taylor.with_taylor(c, TAU, lambda c=c: (c.deriv_group("J_a", c.vec("out"), c.out("Ja"), "x"),
                                                  c.deriv_group("J_b", c.vec("out"), c.out("Jb"), "y")))
 
